@@ -327,8 +327,14 @@ func subst(p J, s map[string]J) J {
 func embeds(p J, s map[string]J, m J) bool {
 	switch pv := p.(type) {
 	case string:
+		if isAnon(pv) {
+			return true // the anonymous variable stands for any value and binds nothing
+		}
 		if v, ok := s[pv]; ok {
 			return js(v) == js(m)
+		}
+		if isVar(pv) {
+			return false // an unbound variable at a position that exists: the match would have bound it
 		}
 		mv, ok := m.(string)
 		return ok && mv == pv
@@ -338,6 +344,19 @@ func embeds(p J, s map[string]J, m J) bool {
 			return false
 		}
 		for k, v := range pv {
+			if isAnon(k) {
+				// the anonymous property variable: some property of the message fits
+				found := false
+				for _, w := range mm {
+					if embeds(v, s, w) {
+						found = true
+					}
+				}
+				if !found {
+					return false
+				}
+				continue
+			}
 			if isVar(k) {
 				// a property variable: it stands for one key of the message map
 				kv, bound := s[k]
@@ -352,7 +371,16 @@ func embeds(p J, s map[string]J, m J) bool {
 				continue
 			}
 			w, have := mm[k]
-			if !have || !embeds(v, s, w) {
+			if !have {
+				// an optional variable whose property is absent stays unbound
+				if ov, is := v.(string); is && isOpt(ov) {
+					if _, bound := s[ov]; !bound {
+						continue
+					}
+				}
+				return false
+			}
+			if !embeds(v, s, w) {
 				return false
 			}
 		}
@@ -585,13 +613,21 @@ func TestBoundedC02Embeddings(t *testing.T) {
 	for _, v := range []J{1.0, "x", "?y", map[string]J{"a": "?y"}, map[string]J{"a": 1.0}, []J{"?y"}} {
 		patterns = append(patterns, map[string]J{"?x": v}, map[string]J{"a": map[string]J{"?x": v}})
 	}
+	// the anonymous variable: as a value, as an array member, and as the property variable
+	for _, v := range []J{1.0, "?y", map[string]J{"a": "?y"}, []J{"?y"}} {
+		patterns = append(patterns, map[string]J{"?": v}, map[string]J{"a": map[string]J{"?": v}})
+	}
+	// optional variables (as property values)
+	patterns = append(patterns, map[string]J{"a": "??o"}, map[string]J{"a": "??o", "b": "?x"}, map[string]J{"a": "??o", "b": 1.0}, map[string]J{"a": map[string]J{"b": "??o"}},
+		[]J{map[string]J{"a": "??o"}}, map[string]J{"a": "??o", "b": "??p"})
+	patterns = append(patterns, map[string]J{"a": "?"}, map[string]J{"a": "?", "b": "?x"}, []J{"?"}, []J{1.0, "?"}, map[string]J{"a": []J{"?"}}, map[string]J{"?x": "?"})
 	marr := 2
 	if thorough() {
 		marr = 3
 	}
 	messages := values(2, mleaves, marr)
 	st.Patterns, st.Messages = len(patterns), len(messages)
-	st.Bound = fmt.Sprintf("plain patterns: depth<=2 over leaves %s, keys {a,b}, arrays<=2, each variable at most once; messages: depth<=2 over %s, arrays<=%d (sets); exhaustive over all pairs", js(pleaves), js(mleaves), marr)
+	st.Bound = fmt.Sprintf("plain patterns: depth<=2 over leaves %s, keys {a,b}, arrays<=2, each variable at most once, plus property-variable, anonymous-variable and optional-variable patterns; messages: depth<=2 over %s, arrays<=%d (sets); exhaustive over all pairs", js(pleaves), js(mleaves), marr)
 	shard := func(ps []J) *stats {
 		st := &stats{}
 		for _, p := range ps {
@@ -599,7 +635,9 @@ func TestBoundedC02Embeddings(t *testing.T) {
 			varsOf(p, vs)
 			var names []string
 			for v := range vs {
-				names = append(names, v)
+				if !isAnon(v) {
+					names = append(names, v)
+				}
 			}
 			sort.Strings(names)
 			for _, m := range messages {
@@ -624,6 +662,9 @@ func TestBoundedC02Embeddings(t *testing.T) {
 							want[js(b)] = true
 						}
 						return
+					}
+					if isOpt(names[i]) {
+						rec(i+1, s) // unbound
 					}
 					for _, k := range keys {
 						s[names[i]] = cands[k]
